@@ -70,6 +70,47 @@ def exc_is_subclass(cls, parent):
 _HQ = {}
 
 
+def hard_check(solver, *assumptions, limit_ms=12000):
+    '''solver.check() under a watchdog: z3's own timeout is not honoured by every theory
+    (the sequence solver can spin); the watchdog interrupts the context.  Interrupted or
+    failed checks are `unknown`, never a verdict.'''
+    import threading
+    ctx = solver.ctx
+    timer = threading.Timer(limit_ms / 1000.0 + 0.5, ctx.interrupt)
+    timer.daemon = True
+    timer.start()
+    try:
+        return solver.check(*assumptions)
+    except z3.Z3Exception:
+        return z3.unknown
+    finally:
+        timer.cancel()
+
+
+_SEQ_OPS = None
+
+
+def mentions_seq_ops(e, _seen=None):
+    '''Does the formula use sequence concatenation / extraction / search (where the
+    in-process z3 may spin past its timeout)?'''
+    global _SEQ_OPS
+    if _SEQ_OPS is None:
+        _SEQ_OPS = {z3.Z3_OP_SEQ_CONCAT, z3.Z3_OP_SEQ_EXTRACT, z3.Z3_OP_SEQ_AT, z3.Z3_OP_SEQ_NTH,
+                    z3.Z3_OP_SEQ_INDEX, z3.Z3_OP_SEQ_CONTAINS, z3.Z3_OP_SEQ_PREFIX, z3.Z3_OP_SEQ_SUFFIX}
+    seen = _seen if _seen is not None else set()
+    k = e.get_id()
+    if k in seen:
+        return False
+    seen.add(k)
+    if z3.is_quantifier(e):
+        return mentions_seq_ops(e.body(), seen)
+    if z3.is_app(e):
+        if e.decl().kind() in _SEQ_OPS:
+            return True
+        return any(mentions_seq_ops(c, seen) for c in e.children())
+    return False
+
+
 def has_quantifier(e, _seen=None):
     # (no cross-call cache: z3 recycles AST ids after garbage collection)
     seen = _seen if _seen is not None else set()
@@ -193,6 +234,7 @@ class CoreMixin:
         self.st = State()
         self.pc_n = 0
         self.pc_has_quant = False
+        self.seq_risky = False
         self.wf_seen = set()
         self.wf_keep = []
         from . import lists as L
@@ -204,17 +246,38 @@ class CoreMixin:
         if z3.is_true(zbool):
             return
         self.solver.add(zbool)
-        # branch feasibility is decided on the quantifier-free part of the path condition
-        # (a weaker condition: may keep an infeasible path alive, never drops a feasible one)
-        if not has_quantifier(zbool):
-            self.light.add(zbool)
-        else:
+        # branch feasibility is decided on the quantifier-free, sequence-operation-free part of
+        # the path condition (weaker: may keep an infeasible path alive, never drops a feasible one)
+        q = has_quantifier(zbool)
+        sq = mentions_seq_ops(zbool)
+        if sq:
+            self.seq_risky = True
+        if q:
             self.pc_has_quant = True
+        if not q and not sq:
+            self.light.add(zbool)
         self.pc_n += 1
+
+    def entails(self, fact):
+        """Is `fact` implied by the path condition?  (True only on a definite answer.)"""
+        if self.seq_risky or mentions_seq_ops(fact):
+            from . import backend
+            v, _w = backend.run_cli(backend.smt2_of(self.solver.assertions(), [z3.Not(fact)]), self.branch_timeout_ms)
+            return v == 'unsat'
+        if self._check_light(z3.Not(fact)) == z3.unsat:
+            return True
+        if self.pc_has_quant:
+            s2 = z3.Solver()
+            s2.set('timeout', self.branch_timeout_ms)
+            s2.add(self.solver.assertions())
+            s2.add(z3.Not(fact))
+            return hard_check(s2, limit_ms=self.branch_timeout_ms) == z3.unsat
+        r, _ = self._check(z3.Not(fact), timeout=self.branch_timeout_ms)
+        return r == z3.unsat
 
     def _check_light(self, *assumptions):
         t0 = time.time()
-        r = self.light.check(*assumptions)
+        r = hard_check(self.light, *assumptions, limit_ms=self.branch_timeout_ms)
         self.solver_s += time.time() - t0
         self.queries += 1
         return r
@@ -223,7 +286,7 @@ class CoreMixin:
         t0 = time.time()
         if timeout is not None:
             self.solver.set('timeout', timeout)
-        r = self.solver.check(*assumptions)
+        r = hard_check(self.solver, *assumptions, limit_ms=timeout or self.check_timeout_ms)
         if timeout is not None:
             self.solver.set('timeout', self.check_timeout_ms)
         dt = time.time() - t0
@@ -248,8 +311,11 @@ class CoreMixin:
             self.dec_i += 1
             self.assume(cond if d else z3.Not(cond))
             return d
-        rt = self._check_light(cond)
-        rf = self._check_light(z3.Not(cond))
+        if mentions_seq_ops(cond):
+            rt = rf = z3.unknown     # not decided here: both sides are explored
+        else:
+            rt = self._check_light(cond)
+            rf = self._check_light(z3.Not(cond))
         can_t = rt != z3.unsat
         can_f = rf != z3.unsat
         if not can_t and not can_f:
@@ -282,6 +348,25 @@ class CoreMixin:
             rec.results.append(('unsat', 0.0, None, self.path_no, 'simplifier'))
             return
         self.flush_axioms()
+        if self.seq_risky or mentions_seq_ops(goal):
+            # sequence operations: external solver processes with hard time limits
+            # (cvc5 first, then the z3 command line); no model is extracted
+            from . import backend
+            t0 = time.time()
+            verdict, who = backend.run_cli(backend.smt2_of(self.solver.assertions(), [z3.Not(goal)]),
+                                           self.check_timeout_ms)
+            dt = time.time() - t0
+            self.solver_s += dt
+            self.queries += 1
+            if verdict == 'unsat':
+                rec.results.append(('unsat', dt, None, self.path_no, who))
+            elif verdict == 'sat':
+                rec.results.append(('sat', dt, {'__no_model__': 'external solver %s answered sat' % who}, self.path_no, who))
+            else:
+                rec.results.append(('unknown', dt, None, self.path_no, 'cvc5+z3'))
+            if assume_after:
+                self.assume(goal)
+            return
         if self.pc_has_quant or has_quantifier(goal):
             r, dt = z3.unknown, 0.0
         else:
@@ -293,7 +378,7 @@ class CoreMixin:
             s2.set('timeout', self.check_timeout_ms)
             s2.add(self.solver.assertions())
             s2.add(z3.Not(goal))
-            r = s2.check()
+            r = hard_check(s2, limit_ms=self.check_timeout_ms)
             d2 = time.time() - t0
             self.solver_s += d2
             dt += d2
@@ -327,7 +412,7 @@ class CoreMixin:
                     self.light.push()
                     self.light.add(z3.Not(goal))
                     t0 = time.time()
-                    rl = self.light.check()
+                    rl = hard_check(self.light, limit_ms=self.branch_timeout_ms)
                     self.solver_s += time.time() - t0
                     if rl == z3.sat:
                         self._model_solver = self.light
@@ -364,6 +449,15 @@ class CoreMixin:
         if str(self.covers.get(label, '')).startswith('reachable'):
             return
         self.flush_axioms()
+        if self.seq_risky:
+            rl = self._check_light(*([extra] if extra is not None and not mentions_seq_ops(extra) else []))
+            if rl == z3.sat:
+                self.covers[label] = 'reachable(part without sequence operations)'
+            elif rl == z3.unsat:
+                self.covers.setdefault(label, 'unreachable')
+            else:
+                self.covers.setdefault(label, 'unknown')
+            return
         if self.pc_has_quant:
             s2 = z3.Solver()
             s2.set('timeout', self.branch_timeout_ms)
@@ -371,7 +465,7 @@ class CoreMixin:
             if extra is not None:
                 s2.add(extra)
             t0 = time.time()
-            r = s2.check()
+            r = hard_check(s2, limit_ms=self.branch_timeout_ms)
             self.solver_s += time.time() - t0
             if r == z3.unknown:
                 # satisfiability with quantified hypotheses is often out of reach: fall back to
